@@ -9,6 +9,7 @@ import Mathlib.Tactic.FieldSimp
 import Mathlib.Tactic.Positivity
 import Mathlib.Data.Rat.Defs
 import Mathlib.Algebra.Order.Field.Rat
+import Mathlib.Analysis.SpecialFunctions.Sqrt
 
 namespace PorepyVerif.C23
 
@@ -562,5 +563,50 @@ theorem extrudeCells_get (b : Base) (layers k c : Nat) (hk : k < layers) (hc : c
     simp only [List.mem_map] at hb'
     obtain ⟨_, _, rfl⟩ := hb'
     simp
+
+/-! ### Euclidean length, triangle children -/
+
+/-- Euclidean length of a rational vector (a real number) -/
+noncomputable def len (v : V3) : ℝ := Real.sqrt ((V3.nsq v : Rat) : ℝ)
+
+theorem len_smul (t : Rat) (ht : 0 ≤ t) (v : V3) : len (V3.smul t v) = (t : ℝ) * len v := by
+  unfold len
+  rw [nsq_smul]
+  push_cast
+  have ht' : (0 : ℝ) ≤ (t : ℝ) := by exact_mod_cast ht
+  rw [Real.sqrt_mul (mul_self_nonneg _), Real.sqrt_mul_self ht']
+
+def triCoords (N : List P2) (t : Tri) : P2 × P2 × P2 := (p2At N t.1, p2At N t.2.1, p2At N t.2.2)
+
+/-- the four geometric children of the triangle (P, Q, S) -/
+def geomChildren (P Q S : P2) : List (P2 × P2 × P2) :=
+  [ (Q, P2.mid Q S, P2.mid P Q), (S, P2.mid S P, P2.mid Q S), (P, P2.mid P Q, P2.mid S P),
+    (P2.mid P Q, P2.mid Q S, P2.mid S P) ]
+
+def centroid (t : P2 × P2 × P2) : P2 :=
+  ⟨(t.1.x + t.2.1.x + t.2.2.x) / 3, (t.1.y + t.2.1.y + t.2.2.y) / 3⟩
+
+theorem inside2d_of_bary (P Q S c : P2) (wP wQ wS : Rat) (hsum : wP + wQ + wS = 1)
+    (hx : c.x = wP * P.x + wQ * Q.x + wS * S.x) (hy : c.y = wP * P.y + wQ * Q.y + wS * S.y)
+    (hP : 0 < wP) (hQ : 0 < wQ) (hS : 0 < wS) (hA : area2 P Q S ≠ 0) :
+    inside2d (P, Q, S) c = true := by
+  have e : wP = 1 - wQ - wS := by linarith
+  have h1 : area2 P Q c = wS * area2 P Q S := by
+    simp only [area2]; rw [hx, hy, e]; ring
+  have h2 : area2 Q S c = wP * area2 P Q S := by
+    simp only [area2]; rw [hx, hy, e]; ring
+  have h3 : area2 S P c = wQ * area2 P Q S := by
+    simp only [area2]; rw [hx, hy, e]; ring
+  unfold inside2d
+  simp only [h1, h2, h3]
+  rcases lt_or_gt_of_ne hA with h | h
+  · have a1 := mul_neg_of_pos_of_neg hS h
+    have a2 := mul_neg_of_pos_of_neg hP h
+    have a3 := mul_neg_of_pos_of_neg hQ h
+    simp [a1, a2, a3]
+  · have a1 := mul_pos hS h
+    have a2 := mul_pos hP h
+    have a3 := mul_pos hQ h
+    simp [a1, a2, a3]
 
 end PorepyVerif.C23
